@@ -1,4 +1,5 @@
 import JugModel.Lemmas.ExecOnce
+import JugModel.Lemmas.ExecScan
 /-!
 # C11 - a failing task stores nothing, blocks only its dependents, and is accounted for
 -/
@@ -134,10 +135,69 @@ theorem cleanup_failed_reenables (P : Prog V) (fl : Worker → Flags) (s s' : Sy
   simp only [accept, Option.some.injEq] at ha
   subst ha; simp [hl]
 
+/-! ### with --keep-going every independent task still completes -/
+
+/-- **keep-going completes everything that is not behind a failure**: in a history without stop requests and crashes, in
+    which tasks may fail in --keep-going workers (with or without --keep-failed), any number `W ≥ 1` of workers, any
+    interleaving: if every worker kept its scan obligation and all of them have left, then every task has a result or is
+    *blocked* - its own function raised, or (transitively) one of its dependencies is blocked. -/
+theorem keep_going_completes_independents (P : Prog V) (fl : Worker → Flags) (res₀ : Task → Option V) (n W : Nat) (hW : 0 < W)
+    (sdeps : Task → List Task) (hlt : ∀ t d, d ∈ sdeps t → d < t) (s : Sys V) (evs : List (Ev V))
+    (hr : FSteps P fl (initSys res₀) evs s)
+    (hw : ∀ e ∈ evs, ∀ w, evWorker e = some w → w < W)
+    (hscan : scanRun n sdeps (kgOf fl) Scan.init evs = true)
+    (hq : ∀ w, w < W → ∃ c, s.wk w = .exited c) :
+    ∀ t, t < n → s.res t ≠ none ∨ Blocked sdeps (scanFold sdeps (kgOf fl) Scan.init evs).failedT t := by
+  have hc := fsteps_cinv P fl n W sdeps evs _ s Scan.init (cinv_init n W hW sdeps fl res₀) hr hw hscan
+  exact complete_of_cinv n W sdeps fl hlt s _ hc hq
+
+/-- the ghost `failedT` is what it says: set exactly by the `endExc` events of the history -/
+theorem failedT_iff (sdeps : Task → List Task) (kg : Worker → Bool) : ∀ (evs : List (Ev V)) (sc : Scan) (t : Task),
+    (scanFold sdeps kg sc evs).failedT t = true ↔ sc.failedT t = true ∨ ∃ w, Ev.endExc w t ∈ evs := by
+  intro evs
+  induction evs with
+  | nil => intro sc t; simp [scanFold]
+  | cons e es ih =>
+    intro sc t
+    simp only [scanFold, ih, List.mem_cons]
+    have key : (scanStep sdeps kg sc e).failedT t = true ↔ sc.failedT t = true ∨ ∃ w, Ev.endExc w t = e := by
+      cases e with
+      | canLoad w0 t0 b => cases b <;> simp [scanStep, Scan.setDone]
+      | lock w0 t0 b => cases b <;> simp [scanStep, Scan.setDone]
+      | endExc w0 t0 =>
+        simp only [scanStep]
+        split <;> simp [Scan.setDone, Scan.exempt] <;> (constructor <;> intro h <;> rcases h with h | h <;> simp_all)
+      | load w0 t0 v => simp [scanStep, Scan.setDone]
+      | dump w0 t0 v => simp [scanStep, Scan.setDone]
+      | unlock w0 t0 => simp [scanStep]
+      | markFailed w0 t0 => simp [scanStep]
+      | stop w0 k => simp [scanStep, Scan.exempt]
+      | begin_ w0 t0 => simp [scanStep]
+      | endOk w0 t0 v => simp [scanStep]
+      | exit w0 c => simp [scanStep]
+      | crash w0 => simp [scanStep]
+      | removeLocks => simp [scanStep]
+      | removeFailedLocks => simp [scanStep]
+    rw [key]
+    constructor
+    · rintro ((h | ⟨w, h⟩) | ⟨w, h⟩)
+      · exact Or.inl h
+      · exact Or.inr ⟨w, Or.inl h⟩
+      · exact Or.inr ⟨w, Or.inr h⟩
+    · rintro (h | ⟨w, h | h⟩)
+      · exact Or.inl (Or.inl h)
+      · exact Or.inl (Or.inr ⟨w, h⟩)
+      · exact Or.inr ⟨w, h⟩
+
 /-! non-vacuity: a failure under --keep-going --keep-failed, an independent task still completes, exit status 1 -/
 example : ∃ s, run (V := Nat) { n := 2, deps := fun _ => [], f := fun _ _ => 3 } (fun _ => ⟨true, true⟩) (initSys (fun _ => none))
     [.lock 0 0 true, .canLoad 0 0 false, .begin_ 0 0, .endExc 0 0, .markFailed 0 0,
      .lock 0 1 true, .canLoad 0 1 false, .begin_ 0 1, .endOk 0 1 3, .dump 0 1 3, .unlock 0 1, .lock 1 0 false, .exit 0 1] = some s
     ∧ s.lock 0 = .failed 0 ∧ s.res 1 = some 3 ∧ s.res 0 = none := ⟨_, rfl, by decide, by decide, by decide⟩
+/-- ... and the same history (both workers leaving) keeps the scan obligation: the failed task counts as accounted for -/
+example : scanRun (V := Nat) 2 (fun _ => []) (fun _ => true) Scan.init
+    [.lock 0 0 true, .canLoad 0 0 false, .begin_ 0 0, .endExc 0 0, .markFailed 0 0,
+     .lock 0 1 true, .canLoad 0 1 false, .begin_ 0 1, .endOk 0 1 3, .dump 0 1 3, .unlock 0 1, .lock 1 0 false, .exit 0 1,
+     .canLoad 1 1 true, .exit 1 0] = true := by decide
 
 end Jug.C11
